@@ -11,6 +11,9 @@
 """
 from __future__ import annotations
 
+import base64
+import pickle
+
 import itertools
 import random
 import re
@@ -123,7 +126,7 @@ def work(item) -> Dict[str, Any]:
     for b in r['bad']:
         rb = replay_values(prog, pb['Model'], b['witness'], seed=vlib.seed())
         out['bad'].append({'what': f'layout {lay_name}: ' + '; '.join(b['symbolic'][:3]), 'replayed': bool(rb),
-                           'replay': {'text': text, 'witness': b['witness'], 'concrete': rb}})
+                           'replay': {'text': text, 'witness': b['witness'], 'concrete': rb, 'program_pickle': base64.b64encode(pickle.dumps(prog)).decode()}})
     return out
 
 
@@ -140,7 +143,7 @@ def main() -> int:
     from gram.enum import fork_nodes
     items = [(p, ln, None) for p in pool for ln in lay_names
              if not (tier == 'quick' and fork_nodes(p) > 1 and ln not in ('plain', 'wide', 'wrapped'))]
-    results = run_items(work, items)
+    results = run_items(work, items, soft_items=ps['sampled'])
     p0 = (Eq(Var('Y'), Bin('+', Var('X', off=-1), Var('Z'))), Eq(Var('Z'), Var('X')))
     tw = [work((p0, 'wide', 'plus_one')), work((p0, 'plain', 'merge_off'))]
     ps_counts = {'pool': len(pool), 'layouts': lay_names}
